@@ -509,6 +509,26 @@ Proof.
     intros _. left. lia.
 Qed.
 
+(* nesting depth: the new tree is no deeper than the old one, the new ilst sits at level 3 *)
+Hypothesis Hheight : mp4_forest_height atoms <= MP4_MAXDEPTH.
+Hypothesis Hith : mp4_height it <= 62.
+Lemma new_atoms_height : mp4_forest_height new_atoms <= MP4_MAXDEPTH.
+Proof.
+  unfold MP4_MAXDEPTH in *. rewrite Eatoms in Hheight. rewrite forest_height_app, forest_height_cons in Hheight.
+  rewrite (height_kids _ _ Kmoov), forest_height_app, forest_height_cons in Hheight.
+  rewrite (height_kids _ _ Kudta), forest_height_app, forest_height_cons in Hheight.
+  rewrite (height_kids _ _ Kmeta), !forest_height_app in Hheight.
+  unfold new_atoms, new_moov, new_udta, new_meta, new_ilst, new_free.
+  rewrite forest_height_app, forest_height_cons, height_node, forest_height_shift.
+  rewrite forest_height_app, forest_height_cons, height_node, forest_height_shift.
+  rewrite forest_height_app, forest_height_cons, height_node, forest_height_shift.
+  rewrite !forest_height_app, forest_height_shift. cbn [mp4_forest_height]. rewrite height_shift, height_leaf.
+  pose proof (forest_height_nonneg T1). pose proof (forest_height_nonneg T2). pose proof (forest_height_nonneg M1).
+  pose proof (forest_height_nonneg M2). pose proof (forest_height_nonneg U1). pose proof (forest_height_nonneg U2).
+  pose proof (forest_height_nonneg A). pose proof (forest_height_nonneg B). pose proof (forest_height_nonneg R).
+  pose proof (height_pos it). lia.
+Qed.
+
 (* a leaf atom outside the region that is not an offset table (mdat, ftyp, free ...): all its bytes are kept *)
 Lemma leaf_preserved L : In L (mp4_flat atoms) -> ma_kids L = None -> is_table_name L = false ->
   (ma_off L + ma_len L <= off \/ off + old <= ma_off L) ->
@@ -684,8 +704,10 @@ Qed.
 Theorem existing_result_wf : mp4_wf f' = true.
 Proof.
   pose proof existing_result_wellformed as W. pose proof result_tables_ok as T. rewrite <- wf_tables_split in T.
-  unfold mp4_wf, mp4_parse. rewrite (parse_complete f' new_atoms W). rewrite W. cbn [andb].
-  apply andb_true_iff in T. destruct T as [T1' T2']. rewrite T1', T2'. reflexivity.
+  pose proof new_atoms_height as HH.
+  unfold mp4_wf, mp4_parse. rewrite (parse_complete f' new_atoms W HH). rewrite W. cbn [andb].
+  apply andb_true_iff in T. destruct T as [T1' T2']. rewrite T1', T2'.
+  assert (E : (mp4_forest_height new_atoms <=? MP4_MAXDEPTH) = true) by (apply Z.leb_le; exact HH). rewrite E. reflexivity.
 Qed.
 (*EXISTING-CONTINUES*)
 End Existing.
